@@ -311,10 +311,13 @@ func vpRunKernel(t *vcTrial, ndesc int, network string) {
 	type script struct {
 		d      *vpDesc
 		sent   uint64
-		how    string // fin | rst | open | shutwr
+		how    string // fin | rst | open | shutwr | ioerr
 		outReq int
+		fault  *vcFaultRule // ioerr: the poller's (Skip+1)-th readv on this descriptor fails hard
 	}
 	var scripts []*script
+	faults := &vcFaultPlan{Seed: r.next()}
+	defer vcSetFaults(nil)
 	closeAll := func() {
 		for _, s := range scripts {
 			if s.d.fd >= 0 {
@@ -338,7 +341,15 @@ func vpRunKernel(t *vcTrial, ndesc int, network string) {
 		if network == "unix" && s.how == "rst" {
 			s.how = "fin"
 		}
-		if !batch && r.chance(30) {
+		if !batch && r.chance(12) {
+			// the read itself fails (reset/timeout/ENOMEM reported by readv): hang-up exactly once,
+			// after deregistering, input delivered before it in order
+			s.how = "ioerr"
+			d.flavour = 1
+			s.fault = &vcFaultRule{Site: vfltReadv, Errno: []syscall.Errno{syscall.ECONNRESET, syscall.ETIMEDOUT, syscall.ENOMEM, syscall.EIO}[r.intn(4)], FD: fd, Skip: int64(r.intn(3)), Count: 1}
+			faults.Rules = append(faults.Rules, s.fault)
+		}
+		if !batch && r.chance(30) && s.how != "ioerr" {
 			d.outLeft = r.rng(1, 200000)
 			s.outReq = d.outLeft
 			vcSetBuf(fd, 4096, 0)
@@ -406,6 +417,16 @@ func vpRunKernel(t *vcTrial, ndesc int, network string) {
 			}
 		}
 		switch s.how {
+		case "ioerr":
+			// keep the descriptor readable until the failing read has happened
+			for k := 0; k < 200 && atomic.LoadInt64(&s.fault.fired) == 0; k++ {
+				b := make([]byte, 1)
+				vfFill(b, d.seed, s.sent)
+				if m, _ := syscall.Write(d.peer, b); m > 0 {
+					s.sent += uint64(m)
+				}
+				time.Sleep(200 * time.Microsecond)
+			}
 		case "fin":
 			syscall.Close(d.peer)
 			d.peer = -1
@@ -422,6 +443,9 @@ func vpRunKernel(t *vcTrial, ndesc int, network string) {
 			wg.Add(1)
 			drive(s, vfNewRng(r.next()))
 		}
+	}
+	if len(faults.Rules) > 0 {
+		vcSetFaults(faults)
 	}
 	for _, s := range scripts {
 		ev := PollReadable
@@ -444,7 +468,7 @@ func vpRunKernel(t *vcTrial, ndesc int, network string) {
 	deadline := time.Now().Add(10 * time.Second)
 	for _, s := range scripts {
 		d := s.d
-		wantHup := s.how == "fin" || s.how == "rst" || s.how == "shutwr"
+		wantHup := s.how == "fin" || s.how == "rst" || s.how == "shutwr" || (s.how == "ioerr" && atomic.LoadInt64(&s.fault.fired) > 0)
 		for time.Now().Before(deadline) {
 			done := atomic.LoadUint64(&d.got) >= s.sent || s.how == "rst"
 			if d.selfDetachAt != 0 {
@@ -476,8 +500,12 @@ func vpRunKernel(t *vcTrial, ndesc int, network string) {
 		if t.Violated() {
 			break
 		}
-		s.d.judge(t, s.sent, s.how, s.how == "fin" || s.how == "rst" || s.how == "shutwr")
+		s.d.judge(t, s.sent, s.how, s.how == "fin" || s.how == "rst" || s.how == "shutwr" || (s.how == "ioerr" && atomic.LoadInt64(&s.fault.fired) > 0))
+		if s.how == "ioerr" {
+			t.Stat("read_errors_injected", int(atomic.LoadInt64(&s.fault.fired)))
+		}
 	}
+	vcSetFaults(nil)
 	// ---- Close stops the loop and releases the poller's own descriptors
 	for _, s := range scripts {
 		if atomic.LoadInt32(&s.d.dead) == 0 {
